@@ -323,6 +323,8 @@ pub fn check(s: &Session, h: &History, stats: &mut Stats) -> Option<Violation> {
     let probe_sent = h.events.iter().any(|e| matches!(e, Ev::Sent { op, .. } if matches!(&s.ops[*op].op, Op::Request { id: 9000, .. })));
     match resp.get(&9000).and_then(|v| v.first()) {
         _ if !probe_sent => {}
+        // the fault plan may pick the probe's own task for an injected panic
+        Some(r) if r["error"]["message"].as_str().map_or(false, |m| m.contains(crate::core::CRASH_MSG)) => {}
         Some(r) if r.get("result").is_some() => {}
         other => {
             return Some(Violation {
